@@ -35,6 +35,15 @@ def run(R):
     # characters of 384, in every spelling of the salt's end; the terminating NUL must stay inside the field (seeded/C04e: one length, one spelling)
     lo, lm = CS.limit_sweep(R, quick)
     for o, m in zip(lo, lm): add(o, m, start=True)
+    # the smallest yescrypt working areas: N = 2..64 with explicit parallelism p = 2..9 (and t) - N/p of 1, 2, 3 is below what the block-pair code
+    # of the optimised smix can work on and must be refused, 4 and more must hash; nothing in ordinary use produces such settings (seeded/C04g)
+    for tag in (b"$y$", b"$gy$"):
+        for k in range(1, 7):
+            for p_ in (2, 3, 4, 5, 8, 9):
+                for r_ in (1, 2):
+                    for t_ in (0, 1):
+                        st = tag + S.enc_var(47, 0) + S.enc_var(k, 1) + S.enc_var(r_, 1) + S.enc_var(3 if t_ else 1, 1) + S.enc_var(p_, 2) + (S.enc_var(t_, 1) if t_ else b"") + b"$saltsalt"
+                        add(CS.crypt_op(R.rng.choice(["r", "rn"]), 0, b"pw", st), ("yescrypt" if tag == b"$y$" else "gost_yescrypt", "small-N-over-p", 2, len(st)), start=True)
     # byte mutations (control characters, 8-bit) of valid settings
     for m, base in S.CANON.items():
         muts = S.mutations(base, S.CANON_DANGER.get(m, []), values=[1, 0x1f, 0x20, 0x7f, 0x80, 0xff, ord("$"), ord(":")])
